@@ -246,6 +246,11 @@ func runWatchLoop(
 			reconcile()
 		case <-debounce:
 			debounce = nil
+			// The callback reads the file itself. Evaluate what is on disk now, not the
+			// fingerprint that scheduled this debounce: a change whose notification was
+			// lost in the meantime would otherwise be recorded under the wrong fingerprint
+			// and later be skipped (or evaluated twice).
+			observed = fingerprint(configPath)
 			runCallback(observed)
 		case event, ok := <-events:
 			if !ok {
